@@ -375,6 +375,26 @@ func c16Special() []refTree {
 			mk(rootPath, root, map[string]gen.S{dir + "/hooks.json": hooks},
 				[]refPlan{{Position: "nested:path:" + key, Kind: "pathItem", Shape: "callback-names-its-own-path", Ref: "hooks.json#/paths/~1x", Marker: "MARKHOOKX"}})
 		}
+		// (h1) a whole-file schema whose default name is the name of an unrelated root component
+		root = refRootSkeleton()
+		dig(root, "components", "schemas")["pet"] = gen.S{"type": "integer", "title": "MARKROOTPET"}
+		dig(root, "components", "schemas")["Site"] = gen.S{"$ref": "pet.json"}
+		dig(root, "components", "schemas", "Holder", "properties")["p"] = gen.S{"$ref": "#/components/schemas/pet"}
+		mk(rootPath, root, map[string]gen.S{dir + "/pet.json": {"type": "string", "title": "MARKPETFILE"}}, []refPlan{
+			{Position: "components.schemas.Site", Kind: "schema", Shape: "default-name-equals-a-root-component", Ref: "pet.json", Marker: "MARKPETFILE"},
+			{Position: "schema.properties.p", Kind: "schema", Shape: "default-name-equals-a-root-component", Ref: "#/components/schemas/pet", Marker: "MARKROOTPET"}})
+		// (h2) a file whose name starts with a dot
+		root = refRootSkeleton()
+		dig(root, "components", "schemas")["Site"] = gen.S{"$ref": ".pet.json"}
+		mk(rootPath, root, map[string]gen.S{dir + "/.pet.json": {"type": "string", "title": "MARKDOTFILE"}}, []refPlan{
+			{Position: "components.schemas.Site", Kind: "schema", Shape: "file-name-starting-with-a-dot", Ref: ".pet.json", Marker: "MARKDOTFILE"}})
+		// (h3) a chain of aliases that ends in the root under another name than the one the library uses
+		root = refRootSkeleton()
+		dig(root, "components", "schemas")["A"] = gen.S{"type": "integer", "title": "MARKROOTA"}
+		dig(root, "components", "schemas")["B"] = gen.S{"type": "string", "title": "MARKROOTB"}
+		dig(root, "components", "schemas")["Site"] = gen.S{"type": "object", "title": "MARKSITEOBJ", "properties": gen.S{"v1": gen.S{"$ref": "sub/lib.json#/components/schemas/A"}}}
+		mk(rootPath, root, map[string]gen.S{dir + "/sub/lib.json": lib("lib", gen.S{"A": gen.S{"$ref": "../root.json#/components/schemas/B"}})}, []refPlan{
+			{Position: "nestedpath:Site/v1", Kind: "schema", Shape: "alias-chain-ending-in-the-root-under-another-name", Ref: "sub/lib.json#/components/schemas/A", Marker: "MARKROOTB"}})
 		// (f) one external library offering the same name in every component collection: they are different objects
 		root = refRootSkeleton()
 		dig(root, "components", "schemas")["Site"] = gen.S{"$ref": "common.json#/components/schemas/Pet"}
